@@ -491,6 +491,11 @@ class BaseEvent(BaseModel, Generic[T_EventResultType]):
             except Exception:
                 # Ignore exceptions here - we'll handle them based on raise_if_any below
                 pass
+            except asyncio.CancelledError as e:
+                # a handler interrupted by a timeout stores a CancelledError as its error: that is a recorded
+                # result like any other, only a cancellation of the *calling* task may propagate from here
+                if e is not event_result.error:
+                    raise
 
         event_results: dict[PythonIdStr, EventResult[T_EventResultType]] = {
             handler_key: event_result for handler_key, event_result in self.event_results.items()
